@@ -144,13 +144,14 @@ func init() {
 			prefixFilter(c.rule("R21", ruleR21), "R21", "UNLINK: every path of the red-black Remove that found the key unlinks a node; the child that replaces the root is made black", 1, "R21:rbt.Remove"))
 	}}
 	properties["C02"] = propDef{run: func(c *Ctx) *PropertyRun {
-		return pr("other", "Decided: (R13a) all 10 comparator-driven descents relate probe and stored key with one orientation (less → left/low, greater → right/high, equal → found); (R13b) keys are never compared with Go operators in comparator-ordered packages; (R20) Min/Max/Floor/Ceiling/Values/Keys delegate to the matching tree operation and (R38 unpack) return the found node's own key and value with true, the zero triple with false; (R10) Floor↔Ceiling, Left↔Right, Min↔Max, iterator Next↔Prev, rotations and fix-up arms are mirror images under μ. (R34) the three rotation primitives (red-black rotateLeft/rotateRight with replaceNode expanded, the AVL tree's direction-parameterised rotate in both directions) are replayed over a symbolic heap on every path: the in-order sequence of the rotated subtree is the same before and after and it has exactly one new root. Not decided: that splits/merges/borrows of the B-tree and the successor/predecessor swaps of Remove preserve the in-order sequence; sortedness of Keys() as such; B-tree per-node binary-search bounds; behaviour under a comparator that is not a strict weak order."+notBehaviour,
-			c.rule("R13", ruleR13), rolesFor(c, "C02"), c.rule("R10", ruleR10), c.rule("R11", ruleR11), c.rule("R29", ruleR29), c.rule("R34", ruleR34), c.rule("R28", ruleR28), c.rule("R36", ruleR36), c.rule("R37", ruleR37), prefixFilter(c.rule("R38", ruleR38), "R38", "UNPACK: TreeMap Min/Max/Floor/Ceiling return the found node's key and value with true", 4, "R38:unpack:"),
+		return pr("other", "Decided: (R13a) all 10 comparator-driven descents relate probe and stored key with one orientation (less → left/low, greater → right/high, equal → found); (R13b) keys are never compared with Go operators in comparator-ordered packages; (R20) Min/Max/Floor/Ceiling/Values/Keys delegate to the matching tree operation and (R38 unpack) return the found node's own key and value with true, the zero triple with false; (R10) Floor↔Ceiling, Left↔Right, Min↔Max, iterator Next↔Prev, rotations and fix-up arms are mirror images under μ. (R34) the three rotation primitives (red-black rotateLeft/rotateRight with replaceNode expanded, the AVL tree's direction-parameterised rotate in both directions) are replayed over a symbolic heap on every path: the in-order sequence of the rotated subtree is the same before and after and it has exactly one new root. (R12d, B-tree) a Put of a key that is already present — in a leaf or as a separator of an internal node — replaces that entry at the position the search reported, and the insertion descent continues below a node only knowing the key is not in it (equal keys are one key: Keys() stays strictly ascending). Not decided: that splits/merges/borrows of the B-tree and the successor/predecessor swaps of Remove preserve the in-order sequence; sortedness of Keys() as such; B-tree per-node binary-search bounds; behaviour under a comparator that is not a strict weak order."+notBehaviour,
+			c.rule("R13", ruleR13), rolesFor(c, "C02"), c.rule("R10", ruleR10), c.rule("R11", ruleR11), c.rule("R29", ruleR29), c.rule("R34", ruleR34), c.rule("R28", ruleR28), c.rule("R36", ruleR36), c.rule("R37", ruleR37),
+			prefixFilter(c.rule("R12", ruleR12), "R12", "ONEKEY: a B-tree Put of a key that is already present (in a leaf or as a separator in an internal node) replaces that entry — equal keys are one key, Keys() stays strictly ascending", 3, "R12d:trees/btree"), prefixFilter(c.rule("R38", ruleR38), "R38", "UNPACK: TreeMap Min/Max/Floor/Ceiling return the found node's key and value with true", 4, "R38:unpack:"),
 			prefixFilter(c.rule("R21b", ruleR21b), "R21b", "B-tree: rebalance is keyed by the node's own key", 1, "R21b:btree.rebalance-key"))
 	}}
 	properties["C03"] = propDef{run: func(c *Ctx) *PropertyRun {
-		return pr("other", "Decided: (R5a) every use of an index parameter of Get/Remove/Insert/Set/Swap on the three lists is dominated by withinRange(index)==true; (R5b) with an out-of-range index nothing is written except the documented append (a call to Add guarded by index == size); (R23w) withinRange ≡ 0 <= i < Size() on all three; (R7) an empty variadic list leaves no nil pointer to dereference; (R12b,c,e) the linked lists' size counters move only with allocate-and-link / guarded unlink; (R23s) Sort = SortFunc(Values(), comparator) then Clear; Add; (R23c) Contains(xs...) exactness; (R20) Append ≡ Add; (R30) the array list's length — its Size() — is replayed symbolically through every method: Add/Insert grow it by exactly len(values), Remove shrinks it by one, growBy(n) by n, resize(l, c) sets l, shrink/Sort/Swap/Set keep it, Clear zeroes it (reallocation thresholds cannot pad or truncate the sequence); (R33) every index-driven pointer walk of the linked lists keeps pos(pointer) = counter + d as a loop invariant (first ↦ 0, last ↦ size-1, next/prev ↦ ±1), walks from the head and from the tail land on the same positions relative to the index, and one pointer lands exactly on it; (R38) Swap exchanges the two requested positions crosswise with both values read first, Prepend's head insertion runs over the values from the last to the first, the array list's Insert splices (old contents, index, values), IndexOf reports the position it matched; (R39) a path that unlinks one element moves first/last exactly when the removed element is that end (a != comparison forbids the move, == demands it), and a path that links a new element into an empty list sets both ends; (R33) no walk starts at nil; (R23s) Sort leaves without sorting only a list of at most one element; (R44) no path reads or writes through the nil constant; (R40) the array list's contents are replayed as a symbolic sequence through every exported method, helpers expanded in place: Add leaves old ++ values, Insert old[:i] ++ values ++ old[i:], Remove old[:i] ++ old[i+1:], Set replaces slot i (or appends at i == len), Clear leaves nothing and every other method leaves the sequence alone — positions compared by linear arithmetic over the path's range checks; (R2b) no list retains a slice its caller handed in (Add/Insert/New copy the values: the element at an index changes only through the list); (R1) the reading operations write nothing (a Get that answers from a cursor remembered by an earlier Get is not the sequence the mutators left). Not decided: that pointer surgery in the linked Insert/Remove yields the spliced sequence; traversal-direction arithmetic; array-list grow/shrink thresholds; IndexOf results."+notBehaviour,
-			c.rule("R5", ruleR5), c.rule("R7", ruleR7), c.rule("R25", ruleR25), c.rule("R27", ruleR27), c.rule("R30", ruleR30), c.rule("R40", ruleR40), c.rule("R33", ruleR33), c.rule("R39", ruleR39), c.rule("R45", ruleR45), prefixFilter(c.rule("R38", ruleR38), "R38", "LISTOPS: Swap exchanges crosswise, Prepend keeps the passed order, Insert splices at the index, IndexOf reports where it found the value", 8, "R38:swap:", "R38:prepend:", "R38:indexof:", "R38:insert:"),
+		return pr("other", "Decided: (R5a) every use of an index parameter of Get/Remove/Insert/Set/Swap on the three lists is dominated by withinRange(index)==true; (R5b) with an out-of-range index nothing is written except the documented append (a call to Add guarded by index == size); (R23w) withinRange ≡ 0 <= i < Size() on all three; (R7) an empty variadic list leaves no nil pointer to dereference; (R12b,c,e) the linked lists' size counters move only with allocate-and-link / guarded unlink; (R23s) Sort = SortFunc(Values(), comparator) then Clear; Add; (R23c) Contains(xs...) exactness; (R20) Append ≡ Add; (R30) the array list's length — its Size() — is replayed symbolically through every method: Add/Insert grow it by exactly len(values), Remove shrinks it by one, growBy(n) by n, resize(l, c) sets l, shrink/Sort/Swap/Set keep it, Clear zeroes it (reallocation thresholds cannot pad or truncate the sequence); (R33) every index-driven pointer walk of the linked lists keeps pos(pointer) = counter + d as a loop invariant (first ↦ 0, last ↦ size-1, next/prev ↦ ±1), walks from the head and from the tail land on the same positions relative to the index, and one pointer lands exactly on it; (R38) Swap exchanges the two requested positions crosswise with both values read first, Prepend's head insertion runs over the values from the last to the first, the array list's Insert splices (old contents, index, values), IndexOf reports the position it matched; (R39) a path that unlinks one element moves first/last exactly when the removed element is that end (a != comparison forbids the move, == demands it), and a path that links a new element into an empty list sets both ends; (R33) no walk starts at nil; (R23s) Sort leaves without sorting only a list of at most one element; (R44) no path reads or writes through the nil constant; (R40) the array list's contents are replayed as a symbolic sequence through every exported method, helpers expanded in place: Add leaves old ++ values, Insert old[:i] ++ values ++ old[i:], Remove old[:i] ++ old[i+1:], Set replaces slot i (or appends at i == len), Clear leaves nothing and every other method leaves the sequence alone — positions compared by linear arithmetic over the path's range checks; (R2b) no list retains a slice its caller handed in (Add/Insert/New copy the values: the element at an index changes only through the list); (R1) the reading operations write nothing (a Get that answers from a cursor remembered by an earlier Get is not the sequence the mutators left); (R46) New(values...) returns without handing over its values only on paths that know there are none. Not decided: that pointer surgery in the linked Insert/Remove yields the spliced sequence; traversal-direction arithmetic; array-list grow/shrink thresholds; IndexOf results."+notBehaviour,
+			c.rule("R5", ruleR5), c.rule("R7", ruleR7), c.rule("R25", ruleR25), c.rule("R27", ruleR27), c.rule("R30", ruleR30), c.rule("R40", ruleR40), c.rule("R33", ruleR33), c.rule("R39", ruleR39), c.rule("R45", ruleR45), prefixFilter(c.rule("R46", ruleR46), "R46", "CTORVALUES: New(values...) of the three lists hands the values to the list unless there are none", 3, "R46:lists/"), prefixFilter(c.rule("R38", ruleR38), "R38", "LISTOPS: Swap exchanges crosswise, Prepend keeps the passed order, Insert splices at the index, IndexOf reports where it found the value", 8, "R38:swap:", "R38:prepend:", "R38:indexof:", "R38:insert:"),
 			prefixFilter(c.rule("R12", ruleR12), "R12", "SIZE: linked-list counters", 6, "R12b:lists/", "R12c:lists/", "R12e:lists/"),
 			prefixFilter(c.rule("R23", ruleR23), "R23", "LISTS: Contains, Sort, withinRange of the three lists", 9, "R23c:lists/", "R23s:lists/", "R23w:lists/"),
 			prefixFilter(c.rule("R2b", ruleR2b), "R2b", "OWNED: a list keeps no slice a caller handed in (an element at index i changes only through the list)", 12, "R2b:lists/"),
@@ -161,10 +162,11 @@ func init() {
 			rolesFor(c, "C03"))
 	}}
 	properties["C04"] = propDef{run: func(c *Ctx) *PropertyRun {
-		return pr("other", "Decided: (R15) LinkedHashSet's table and order list gain/lose a member on exactly the same paths, with the membership test inside the loop (a duplicate inside one Add call is covered); (R24) HashSet.Add/Remove are one Go-map assignment/delete per argument; (R20) TreeSet delegates Add→Put, Remove→Remove, Contains→Get, Size→Size, Values→Keys, Clear→Clear; (R23c) Contains(xs...) of all three sets advances only after a hit, returns false only after a miss and true only when all values were found (true for no arguments); (R12f) Empty/Size/Values length derive from one size term; (R13b) TreeSet never orders or equates elements with Go operators (`<`, `==` call NaN equal to everything / unequal to itself) — only through the comparator, and its default comparator is cmp.Compare; the same holds for the red-black tree that stores it, whose Put/lookup/Floor/Ceiling descents (R13a) decide 'same member' by the comparator's == 0 alone. Not decided: Go map semantics (trusted); TreeSet inherits C01's remainder. Inherited (substrate): TreeSet is stored in a red-black tree and LinkedHashSet's order in a doubly linked list — the structural clauses of those two (parent links, mirror arms, rotations' in-order preservation, fix-up wiring, size counters, comparator discipline; next/prev pairing, index walks, index guards) are part of this check."+notBehaviour,
+		return pr("other", "Decided: (R15) LinkedHashSet's table and order list gain/lose a member on exactly the same paths, with the membership test inside the loop (a duplicate inside one Add call is covered); (R24) HashSet.Add/Remove are one Go-map assignment/delete per argument; (R20) TreeSet delegates Add→Put, Remove→Remove, Contains→Get, Size→Size, Values→Keys, Clear→Clear; (R23c) Contains(xs...) of all three sets advances only after a hit, returns false only after a miss and true only when all values were found (true for no arguments); (R12f) Empty/Size/Values length derive from one size term; (R13b) TreeSet never orders or equates elements with Go operators (`<`, `==` call NaN equal to everything / unequal to itself) — only through the comparator, and its default comparator is cmp.Compare; the same holds for the red-black tree that stores it, whose Put/lookup/Floor/Ceiling descents (R13a) decide 'same member' by the comparator's == 0 alone; (R46) the constructors New(values...) / NewWith(cmp, values...) return without handing over their values only on paths that know there are none. Not decided: Go map semantics (trusted); TreeSet inherits C01's remainder. Inherited (substrate): TreeSet is stored in a red-black tree and LinkedHashSet's order in a doubly linked list — the structural clauses of those two (parent links, mirror arms, rotations' in-order preservation, fix-up wiring, size counters, comparator discipline; next/prev pairing, index walks, index guards) are part of this check."+notBehaviour,
 			withSubstrates(c, []*RuleResult{
 				prefixFilter(c.rule("R15", ruleR15), "R15", "LINKED: LinkedHashSet table ↔ order list", 5, "R15a:sets/linkedhashset", "R15b:sets/linkedhashset", "R15c:sets/linkedhashset", "R15w:sets/linkedhashset", "R15d:sets/linkedhashset"),
 				prefixFilter(c.rule("R24", ruleR24), "R24", "HASH: HashSet is the Go map", 2, "R24:sets/hashset"),
+				prefixFilter(c.rule("R46", ruleR46), "R46", "CTORVALUES: New(values...) / NewWith(cmp, values...) of the three sets hand the values to the set unless there are none", 3, "R46:sets/"),
 				prefixFilter(c.rule("R23", ruleR23), "R23", "MEMBERSHIP: Contains(xs...) of the three sets", 3, "R23c:sets/"),
 				prefixFilter(c.rule("R12", ruleR12), "R12", "SIZE: Empty/Size/Values of the three sets", 6, "R12f:sets/"),
 				prefixFilter(c.rule("R13", ruleR13), "R13", "ORDER: TreeSet and the red-black tree under it never compare elements with Go operators; the tree's descents use the comparator's full verdict with one orientation", 5, "R13b:sets/treeset", "R13b:trees/redblacktree", "R13a:trees/redblacktree"),
